@@ -589,14 +589,3 @@ def finding_abs_replaced_ratio_only():
         if isinstance(box, boxes.ReplacedBox):
             return box.width != 200
     return True
-
-
-def finding_background_round_zero_size():
-    html = ('<style>@page{size:200px;margin:0}body{margin:0}</style>'
-            f'<div style="width:100px;height:50px;background:url({png_uri(4, 4, 0)}) round;'
-            'background-size:0 auto"></div>')
-    try:
-        docs.render(html).write_pdf()
-    except ZeroDivisionError:
-        return True
-    return False
